@@ -20,7 +20,19 @@
      max(a, b) on ints; str(x) = Render.py_str; date.strftime('%Y-%m-%d') = Render.date_str (this format only);
      s.rjust(n) / s.ljust(n) = Render.rjust / ljust; in an f-string `{x:>n}` = rjust n (str x), `{x:<n}` = ljust n (str x)
      (str and Decimal operands: Decimal.__format__ with an alignment-only spec pads str(value)); a negative width in a format
-     spec is outside the model (Python raises ValueError): Stuck (rjust/ljust accept it: no padding); "fstr" concatenates the parts. *)
+     spec is outside the model (Python raises ValueError): Stuck (rjust/ljust accept it: no padding); "fstr" concatenates the parts.
+   render_text (bld-render3): s.rjust(n, c) for a one-character fill = [rjust_fill] (Render.rjust with the fill character in place of
+     the space: rjust_fill_space); s.center(n) = Render.center (CPython's rounding rule); sep.join(list of str) = Render.join;
+     template.format(x) for a template with exactly ONE replacement field written `{}` and no other brace = [fmt1] (the
+     field replaced by x; any other template: Stuck); zip of three sequences = [zip3]; file.write(s) on the file-as-its-content
+     value appends s (and answers len(s)); an Align member is its int value (translator rule T9; "attr:align").
+   Amount / Position renderers (bld-render3, [prims_amt]): beancount's DisplayContext is abstract, exactly as in Render.v:
+     the column's DisplayContext() builder  PTuple [64; PList of the (number, currency) pairs update() was called with]
+     (update appends); .build(Align.DOT = 2, Precision.MAXIMUM = 2) is the formatter PTuple [65; the same pairs], and
+     applying it to (number, currency) is Render's [numfmt pairs number currency]; .ccontexts iterates over '__default__'
+     then the distinct currencies in first-update order; Decimal() is 0; the ledger's display context is
+     PTuple [67; its quantize method]; value.number / .currency / .units / .cost read the encoded Amount / Position;
+     `{x}` in an f-string, x a str, is x. *)
 From Coq Require Import String ZArith List Bool.
 Import ListNotations.
 From Verif Require Import Base.PyValue Model.Eval Model.PyMini Model.Render.
@@ -117,6 +129,24 @@ Definition pad (strict left : bool) (v w : pv) : res pv :=
   | _ => Stuck
   end.
 
+(* s.rjust(w, c) *)
+Definition rjust_fill (w : nat) (c : Z) (s : str) : str := repeat c (w - length s) ++ s.
+
+(* template.format(x): exactly one field `{}`, no other brace in the template *)
+Definition is_brace (c : Z) : bool := (c =? 123) || (c =? 125).
+Fixpoint fmt1 (t x : list Z) : option (list Z) :=
+  match t with
+  | [] => None
+  | c :: r =>
+      if c =? 123 then
+        match r with
+        | d :: r' => if (d =? 125) && negb (existsb is_brace r') then Some (x ++ r') else None
+        | [] => None
+        end
+      else if c =? 125 then None
+      else option_map (cons c) (fmt1 r x)
+  end.
+
 Definition prims_render (name : string) (args : list pv) : res pv :=
   if String.eqb name "builtins.max" then
     match args with [PV (VInt a); PV (VInt b)] => Ok (PInt (Z.max a b)) | _ => Stuck end
@@ -140,7 +170,11 @@ Definition prims_render (name : string) (args : list pv) : res pv :=
   else if String.eqb name "attr:exponent" then
     match args with [PTuple [PV (VInt 50); _; _; e]] => Ok e | _ => Stuck end
   else if String.eqb name "call:rjust" then
-    match args with [PV (VStr s); w] => pad false false (PV (VStr s)) w | _ => Stuck end
+    match args with
+    | [PV (VStr s); w] => pad false false (PV (VStr s)) w
+    | [PV (VStr s); PV (VInt n); PV (VStr [c])] => Ok (PV (VStr (rjust_fill (Z.to_nat n) c s)))
+    | _ => Stuck
+    end
   else if String.eqb name "call:ljust" then
     match args with [PV (VStr s); w] => pad false true (PV (VStr s)) w | _ => Stuck end
   else if String.eqb name "format:>" then
@@ -194,6 +228,8 @@ Definition seq_of (v : pv) : option (list pv) := match v with PList l | PTuple l
 
 Fixpoint zip2 (a b : list pv) : list pv :=
   match a, b with x :: a', y :: b' => PTuple [x; y] :: zip2 a' b' | _, _ => [] end.
+Fixpoint zip3 (a b c : list pv) : list pv :=
+  match a, b, c with x :: a', y :: b', z :: c' => PTuple [x; y; z] :: zip3 a' b' c' | _, _, _ => [] end.
 
 Definition transpose (ls : list (list pv)) : list pv :=
   match ls with
@@ -229,6 +265,8 @@ Definition prims_top (name : string) (args : list pv) : res pv :=
   else if String.eqb name "builtins.zip" then
     match args with
     | [a; b] => match seq_of a, seq_of b with Some x, Some y => Ok (PList (zip2 x y)) | _, _ => Stuck end
+    | [a; b; c] =>
+        match seq_of a, seq_of b, seq_of c with Some x, Some y, Some z => Ok (PList (zip3 x y z)) | _, _, _ => Stuck end
     | _ => Stuck
     end
   else if String.eqb name "call:format" then
@@ -236,7 +274,11 @@ Definition prims_top (name : string) (args : list pv) : res pv :=
     | [r; v] =>
         match dec_robj r, dec_rcell v with
         | Some (t, o, vals), Some c => Ok (enc_out (st_format numfmt o t (col_prepare quant o t vals) c))
-        | _, _ => Stuck
+        | _, _ =>
+            match r, v with              (* not a renderer: template.format(x) on a str *)
+            | PV (VStr t), PV (VStr x) => match fmt1 t x with Some y => Ok (PV (VStr y)) | None => Stuck end
+            | _, _ => Stuck
+            end
         end
     | _ => Stuck
     end
@@ -310,5 +352,81 @@ Definition prims_top (name : string) (args : list pv) : res pv :=
         end
     | _ => Stuck
     end
+  else if String.eqb name "call:center" then
+    match args with [PV (VStr s); PV (VInt n)] => Ok (PV (VStr (center (Z.to_nat n) s))) | _ => Stuck end
+  else if String.eqb name "call:join" then
+    match args with
+    | [PV (VStr sep); PList l] => match n_map_opt dec_s l with Some ss => Ok (PV (VStr (join sep ss))) | None => Stuck end
+    | _ => Stuck
+    end
+  else if String.eqb name "method:write" then
+    match args with
+    | [PV (VStr f); PV (VStr x)] => Ok (PTuple [PV (VStr (f ++ x)); PInt (Z.of_nat (length x))])
+    | _ => Stuck
+    end
   else prims_render name args.
 End Top.
+
+(* ================================================================== the Amount / Position renderers *)
+Definition s_default : str := [95; 95; 100; 101; 102; 97; 117; 108; 116; 95; 95].      (* '__default__' *)
+Definition enc_up (u : dec * str) : pv := PTuple [PV (VDec (fst u)); enc_s (snd u)].
+Definition dec_up (v : pv) : option (dec * str) :=
+  match v with PTuple [PV (VDec d); PV (VStr c)] => Some (d, c) | _ => None end.
+Definition enc_dctx (ups : list (dec * str)) : pv := PTuple [PInt 64; PList (map enc_up ups)].
+Definition enc_func (ups : list (dec * str)) : pv := PTuple [PInt 65; PList (map enc_up ups)].
+Fixpoint dedupe (seen l : list str) : list str :=
+  match l with
+  | [] => []
+  | x :: t => if existsb (str_eqb x) seen then dedupe seen t else x :: dedupe (x :: seen) t
+  end.
+
+Section Amt.
+Variable numfmt : list (dec * str) -> dec -> str -> str.
+
+Definition prims_amt (name : string) (args : list pv) : res pv :=
+  if String.eqb name "attr:number" then
+    match args with [PTuple [PV (VInt 43); n; _]] => Ok n | _ => Stuck end
+  else if String.eqb name "attr:currency" then
+    match args with [PTuple [PV (VInt 43); _; c]] => Ok c | _ => Stuck end
+  else if String.eqb name "attr:units" then
+    match args with [PTuple [PV (VInt 44); u; _]] => Ok u | _ => Stuck end
+  else if String.eqb name "attr:cost" then
+    match args with [PTuple [PV (VInt 44); _; c]] => Ok c | _ => Stuck end
+  else if String.eqb name "attr:dcontext" then
+    match args with [PTuple [PV (VInt 61); dc; _; _; _; _]] => Ok dc | _ => Stuck end
+  else if String.eqb name "attr:quantize" then
+    match args with [PTuple [PV (VInt 67); q]] => Ok q | _ => Stuck end
+  else if String.eqb name "beancount.core.display_context.DisplayContext" then
+    match args with [] => Ok (enc_dctx []) | _ => Stuck end
+  else if String.eqb name "decimal.Decimal" then
+    match args with [] => Ok (PV (VDec dec_zero)) | _ => Stuck end
+  else if String.eqb name "method:update" then
+    match args with
+    | [PTuple [PV (VInt 64); PList l]; PV (VDec d); PV (VStr c)] =>
+        Ok (PTuple [PTuple [PInt 64; PList (l ++ [enc_up (d, c)])]; PNone])
+    | _ => Stuck
+    end
+  else if String.eqb name "call:build" then
+    match args with
+    | [PTuple [PV (VInt 64); PList l]; PV (VInt 2); PV (VInt 2)] => Ok (PTuple [PInt 65; PList l])
+    | _ => Stuck
+    end
+  else if String.eqb name "attr:ccontexts" then
+    match args with
+    | [PTuple [PV (VInt 64); PList l]] =>
+        match n_map_opt dec_up l with
+        | Some ups => Ok (PList (map enc_s (s_default :: dedupe [] (map snd ups))))
+        | None => Stuck
+        end
+    | _ => Stuck
+    end
+  else if String.eqb name "apply" then
+    match args with
+    | [PTuple [PV (VInt 65); PList l]; PV (VDec d); PV (VStr c)] =>
+        match n_map_opt dec_up l with Some ups => Ok (enc_s (numfmt ups d c)) | None => Stuck end
+    | _ => Stuck
+    end
+  else if String.eqb name "format:plain" then
+    match args with [PV (VStr x)] => Ok (PV (VStr x)) | _ => Stuck end
+  else prims_render name args.
+End Amt.
